@@ -193,12 +193,11 @@ impl Raw {
     }
     /// true if every storage bit at a position >= len is zero (diagnostic only)
     pub fn padding_clean(&self) -> bool {
-        for i in self.len..self.storage_bits() {
-            if (self.bytes[i / 8] >> (i % 8)) & 1 == 1 {
-                return false;
-            }
+        let first_whole = (self.len + 7) / 8;
+        if self.len % 8 != 0 && self.bytes[self.len / 8] >> (self.len % 8) != 0 {
+            return false;
         }
-        true
+        self.bytes[first_whole.min(self.bytes.len())..].iter().all(|b| *b == 0)
     }
     pub fn hex(&self) -> String {
         let mut s = String::new();
